@@ -30,6 +30,10 @@ MCNext ==
 
 MCSpec == MCInit /\ [][MCNext]_mcvars
 
+\* value convergence restricted to histories without any removal (no tombstone anywhere)
+NoTombs == \A j \in DOMAIN deltas : deltas[j].tombs = {}
+ValueConvergenceNoRemove == NoTombs => ValueConvergence
+
 \* hist is only there to read scripts off counterexamples
 View == <<vars, nops>>
 =============================================================================
